@@ -487,8 +487,8 @@ def a64_queries(db):
         for arr in arrs:
             toks, dbops, nid, okf = [], [], 4, True
             for i, o in enumerate(ops):
-                # only the run is judged on AArch64 rows (scope of C12); access letters are not
-                d = {"kind": 0, "gp": False, "size": 0, "read": False, "write": False, "lo": 0, "width": 0, "follower": 0,
+                # AArch64 rows: the run and the database's access letters (tbx reads its destination) are judged, no byte ranges
+                d = {"kind": 0, "gp": False, "size": 0, "read": o["read"], "write": o["write"], "lo": 0, "width": 0, "follower": 0,
                      "runLen": 0, "rmChecked": False, "memAlt": []}
                 if li <= i < li + n:
                     k = i - li
